@@ -406,6 +406,10 @@ def build_evidence(prop, tier, base_seed, driver, results, extra, n_viol, wall, 
         "components": COMPONENTS,
         "exhaustive": False,
     }
+    if prop == "C15":
+        cov["abstract_state_measure"] = "distinct per-step fingerprints of the whole SimulationState (instance ids dropped) seen in the compared executions"
+    if prop == "C08":
+        cov["abstract_state_measure"] += " (simulated runs only; operation histories are counted under fault_kinds_fired.operations)"
     if extra:
         cov.update(extra.get("coverage") or {})
     return {
